@@ -352,4 +352,15 @@ def addContent (id : String) (text : String) : Except String FileResult :=
   | .ok r => .ok r
   | .error st => .error st.msg
 
+/-- the token sequence of a text: (lexer entry, text) pairs and how it ends (`true`: end of input,
+    `false`: an invalid token); `none` if the step bound is too small (not part of the parser: the
+    hypothesis of the layout-independence theorem `Props/C02Layout.lean`, evaluated by the driver) -/
+def lexToks (T : Tables) : Nat → List Char → Nat → Option (List (Nat × String) × Bool)
+  | 0, _, _ => none
+  | f + 1, i, p =>
+    match Lexer.next T.lex (i.length + 1) i p with
+    | .eof => some ([], true)
+    | .invalid _ => some ([], false)
+    | .token t r => (lexToks T f r t.stop).map fun le => ((t.index, t.text) :: le.1, le.2)
+
 end Aidl.Lr
